@@ -44,6 +44,7 @@ type monSecondary[K comparable, V any] struct {
 	// gate, when non-nil, is received from before each Set is applied (lets a scenario hold the workers)
 	setGate chan struct{}
 	inSet   atomic.Int64
+	stalled map[K]int // keys whose Set call is waiting on setGate (the caller holds that key's shard read lock)
 }
 
 var errSecondary = errors.New("injected secondary failure")
@@ -77,9 +78,20 @@ func (s *monSecondary[K, V]) Set(key K, value V, cost int64, expire int64) error
 	defer s.inSet.Add(-1)
 	s.mu.Lock()
 	g := s.setGate
+	if g != nil {
+		if s.stalled == nil {
+			s.stalled = map[K]int{}
+		}
+		s.stalled[key]++
+	}
 	s.mu.Unlock()
 	if g != nil {
 		<-g
+		s.mu.Lock()
+		if s.stalled[key]--; s.stalled[key] <= 0 {
+			delete(s.stalled, key)
+		}
+		s.mu.Unlock()
 	}
 	s.mu.Lock()
 	defer s.mu.Unlock()
@@ -139,4 +151,15 @@ func (s *monSecondary[K, V]) log() []secCall[K, V] {
 	s.mu.Lock()
 	defer s.mu.Unlock()
 	return append([]secCall[K, V](nil), s.calls...)
+}
+
+// stalledKeys returns the keys whose Set call is currently held at the gate.
+func (s *monSecondary[K, V]) stalledKeys() []K {
+	s.mu.Lock()
+	defer s.mu.Unlock()
+	out := make([]K, 0, len(s.stalled))
+	for k := range s.stalled {
+		out = append(out, k)
+	}
+	return out
 }
